@@ -230,7 +230,7 @@ Proof.
   destruct H as [|x x' r r' E Hr]; auto.
   assert (L : (x <? 128) = (x' <? 128)).
   { assert (G : lower_inv (fun x => x <? 128)) by (apply lower_inv_sweep; vm_compute; reflexivity). apply (lower_inv_ceq _ _ _ G E). }
-  rewrite L. unfold ceq in E. rewrite E. destruct ((x' <? 128) && (lower x' =? y)); auto.
+  rewrite L. unfold ceq in E. rewrite E. destruct ((x' <? 128) && (lower x' =? y)); [apply IH; auto | exact I].
 Qed.
 
 (* names: mnemonics, directive names, register names -- every table lookup goes through str_lower *)
@@ -266,4 +266,55 @@ Proof.
   rewrite (lower_inv_ceq p a b Hp E). destruct (p b); [|repeat split; auto].
   specialize (IH (k + 1)). destruct (span_n p t (k + 1)) as [[m r] n], (span_n p t' (k + 1)) as [[m' r'] n'].
   destruct IH as [H1 [H2 H3]]. repeat split; auto.
+Qed.
+
+(* ---- the conjunctions stated in Props/P.v ------------------------------------------------------------------- *)
+Lemma token_parsers_rest_det :
+  (forall lit, rest_det (literal lit)) /\ rest_det symbol_literal /\ rest_det local_symbol_literal /\
+  rest_det label_name /\ rest_det instruction_name /\ rest_det string_quote /\ rest_det caret_parenthesis /\
+  rest_det infix_operator /\ rest_det prefix_operator /\ rest_det postfix_operator.
+Proof.
+  exact (conj rest_det_literal (conj rest_det_symbol_literal (conj rest_det_local_symbol_literal
+        (conj rest_det_label_name (conj rest_det_instruction_name (conj rest_det_string_quote
+        (conj rest_det_caret_parenthesis (conj (rest_det_either_lit _) (conj (rest_det_either_lit _) (rest_det_either_lit _)))))))))).
+Qed.
+Lemma case_names :
+  forall a b, Forall2 ceq a b ->
+    lookup_cmd a = lookup_cmd b /\ in_builtin a = in_builtin b /\ is_register_name a = is_register_name b /\
+    (forall idx c d, operand_type a idx c d = operand_type b idx c d) /\
+    (forall s e s2 e2 l1 l2 ops, is_end_insn (Insn s e (Symbol s2 e2 a l1) ops) = is_end_insn (Insn s e (Symbol s2 e2 b l2) ops)).
+Proof.
+  intros a b H. repeat split.
+  - apply lookup_cmd_case; auto.
+  - apply in_builtin_case; auto.
+  - apply is_register_name_case; auto.
+  - intros; apply operand_type_case; auto.
+  - intros; apply is_end_insn_case; auto.
+Qed.
+Lemma case_literals_digits :
+  (forall lit l l', Forall2 ceq l l' ->
+     match lit_match lit l, lit_match lit l' with
+     | Some r, Some r' => Forall2 ceq r r' | None, None => True | _, _ => False end) /\
+  (forall base l l' acc, Forall2 ceq l l' -> int_digits base l acc = int_digits base l' acc) /\
+  (forall base s s', Forall2 ceq s s' -> py_int base s = py_int base s') /\
+  (forall p l l' k, lower_inv p -> Forall2 ceq l l' ->
+     let '(m, r, n) := span_n p l k in let '(m', r', n') := span_n p l' k in
+     Forall2 ceq m m' /\ Forall2 ceq r r' /\ n = n') /\
+  (lower_inv is_digit /\ lower_inv is_alpha /\ lower_inv is_word /\ lower_inv is_insn_start /\ lower_inv is_sym_start /\
+   lower_inv is_sym_char /\ lower_inv is_space /\ lower_inv caret_paren_char /\ lower_inv rad50_class).
+Proof.
+  repeat split.
+  - exact lit_match_case.
+  - exact int_digits_case.
+  - exact py_int_case.
+  - exact span_n_case.
+  - exact is_digit_lower.
+  - exact is_alpha_lower.
+  - exact is_word_lower.
+  - exact is_insn_start_lower.
+  - exact is_sym_start_lower.
+  - exact is_sym_char_lower.
+  - exact is_space_lower.
+  - exact caret_paren_char_lower.
+  - exact rad50_class_lower.
 Qed.
